@@ -151,6 +151,23 @@ Example C11_openssl_roundtrip_inhabited_3x :
   exists x, ossl_ctor (list_ascii_of_string " v3.1 -beta.1") = Ok (OSem x) /\ ossl_str (OSem x) = list_ascii_of_string "3.1.0-beta.1".
 Proof. eexists. split; vm_compute; reflexivity. Qed.
 
+(* "every string that follows the scheme's documented version grammar is accepted", for two grammars that the models
+   state in full.  SemVer 2.0: three numbers, then optionally "-" and dot-separated identifiers of letters, digits and
+   hyphens (non-empty, numeric ones without a leading zero), then optionally "+" and dot-separated identifiers
+   (non-empty): `WF` says exactly that of the identifier lists, `semver_str` writes the text.  Legacy openssl: a known
+   base followed by nothing or by a patch that has no dot, no space and does not start with a digit. *)
+Theorem C11_documented_grammar_is_accepted :
+  (forall v, WF v -> semver_valid (normalize (semver_str v)) = true /\ semver_ctor (semver_str v) = Ok v) /\
+  (forall v, known_base v = true -> mem_c LegacyOpenssl.c_dot (l_patch v) = false -> nospace (l_patch v) = true ->
+             match l_patch v with [] => True | p0 :: _ => is_digit p0 = false end ->
+             leg_valid (normalize (leg_str v)) = Ok true /\ leg_ctor (leg_str v) = Ok v).
+Proof.
+  split.
+  - intros v W. unfold semver_valid, semver_ctor. rewrite (printed_normal v W), (semver_print_parse v W). split; reflexivity.
+  - intros v Hk Hd Hs Hp. pose proof (leg_print_parse v Hk Hd Hs Hp) as R. split; [|exact R].
+    apply leg_valid_iff_ctor. exists v. exact R.
+Qed.
+
 Print Assumptions C11_generic.
 Print Assumptions C11_gentoo.
 Print Assumptions C11_alpine.
@@ -168,3 +185,4 @@ Print Assumptions C11_maven_conan_roundtrip.
 Print Assumptions C11_legacy_openssl_roundtrip.
 Print Assumptions C11_openssl_roundtrip.
 Print Assumptions C11_rpm_roundtrip_refuted_without_the_hypothesis.
+Print Assumptions C11_documented_grammar_is_accepted.
